@@ -156,19 +156,13 @@ class Ctx:
 
     # ---- build of the static development
     def ensure_static(self):
-        """(re)build the static development; only this property's Props file has to succeed
-        (another property's file being broken must not stop this check)."""
-        lock = VERIF / "build" / ".lock"
-        with open(lock, "w") as fh:
-            fcntl.flock(fh, fcntl.LOCK_EX)
-            subprocess.run(["bash", str(VERIF / "build_coq.sh"), "-k"], capture_output=True, text=True, timeout=3000)
-            r = subprocess.run(["make", "-C", str(COQ), "Props/%s.vo" % self.pid], capture_output=True, text=True,
-                               timeout=3000)
-            fcntl.flock(fh, fcntl.LOCK_UN)
-        if r.returncode != 0:
-            self.notes.append("static build failed: " + _clean(r.stdout + r.stderr)[-2000:])
-            return False
-        return True
+        """(re)build exactly what coq/Props/<pid>.v depends on, file by file with coqc
+        (per-file locks), so that another property's slow or broken file can neither block
+        nor fail this check.  setup_cmd (build_coq.sh) does the full `make` build."""
+        ok, log = build_target(COQ / "Props" / (self.pid + ".v"))
+        if not ok:
+            self.notes.append("static build failed: " + log[-2000:])
+        return ok
 
     # ---- coq
     def coqc(self, name, source, timeout=600):
@@ -198,12 +192,33 @@ class Ctx:
         res = self.coqc("P_" + self.pid, src, timeout=900)
         # parse Print Assumptions blocks
         ass = parse_assumptions(res.out)
+        names = re.findall(r"^\s*Print Assumptions\s+([A-Za-z0-9_'.]+)\s*\.", src, flags=re.M)
+        if len(names) == len(ass):
+            ass = {n: ass["#%d" % i] for i, n in enumerate(names)}
         self.assumptions = ass
+        if not self.quick and res.ok:
+            self.coqchk()
         for t in thms:
             self.obligation("P", "Props/%s.v:%s" % (self.pid, t), res.ok, res.out)
         self.extra["P_theorems"] = thms
         self.extra["P_compile_s"] = round(res.secs, 2)
         return res.ok
+
+    def coqchk(self):
+        """thorough tier: independent re-check of the compiled property file and everything it depends on"""
+        t = time.time()
+        try:
+            r = subprocess.run(["coqchk", "-silent", "-o", "-Q", str(COQ), "NT", "NT.Props." + self.pid],
+                               capture_output=True, text=True, timeout=1500, cwd=str(COQ))
+            out = _clean(r.stdout + "\n" + r.stderr)
+            ok = r.returncode == 0
+        except subprocess.TimeoutExpired:
+            ok, out = False, "TIMEOUT"
+        self.obligation("P", "coqchk -o NT.Props.%s" % self.pid, ok, out)
+        m = re.search(r"\* Axioms:(.*?)(?:\n\s*\*|\Z)", out, flags=re.S)
+        self.extra["coqchk_axioms"] = (m.group(1).strip()[:3000] if m else out[-1500:])
+        self.extra["coqchk_s"] = round(time.time() - t, 1)
+        return ok
 
     def check_gen(self, name, source, lemmas=None, timeout=600):
         """G: compile a generated-fact file; `lemmas` names the lemmas inside it."""
@@ -337,6 +352,62 @@ class Ctx:
         (VERIF / "evidence").mkdir(exist_ok=True)
         (VERIF / "evidence" / (self.pid + ".json")).write_text(json.dumps(ev, indent=1, default=str))
         return 1 if self.violations else 0
+
+
+_REQ = re.compile(r"From\s+NT\s+Require\s+(?:Import|Export)\s+([^.]*)\.|Require\s+(?:Import|Export)\s+((?:NT\.[A-Za-z0-9_.]+\s*)+)\.")
+
+
+def _vfiles():
+    m = {}
+    for d in ("Base", "Model", "Check", "Proofs", "Props"):
+        for f in (COQ / d).glob("*.v"):
+            m[f.stem] = f
+    return m
+
+
+def _deps(vfile, index):
+    src = vfile.read_text()
+    src = re.sub(r"\(\*.*?\*\)", "", src, flags=re.S)
+    out = []
+    for a, b in _REQ.findall(src):
+        for name in (a or b).split():
+            name = name.split(".")[-1]
+            if name in index and index[name] != vfile:
+                out.append(index[name])
+    return out
+
+
+def build_target(vfile, _seen=None, _index=None):
+    """compile vfile's NT dependencies (recursively) and vfile itself if out of date"""
+    index = _index or _vfiles()
+    seen = _seen if _seen is not None else {}
+    if vfile in seen:
+        return seen[vfile]
+    seen[vfile] = (True, "")
+    newest_dep = 0.0
+    for d in _deps(vfile, index):
+        ok, log = build_target(d, seen, index)
+        if not ok:
+            seen[vfile] = (False, log)
+            return seen[vfile]
+        newest_dep = max(newest_dep, d.with_suffix(".vo").stat().st_mtime)
+    vo = vfile.with_suffix(".vo")
+    lock = VERIF / "build" / (".lock_" + vfile.stem)
+    with open(lock, "w") as fh:
+        fcntl.flock(fh, fcntl.LOCK_EX)
+        try:
+            if vo.exists() and vo.stat().st_mtime >= vfile.stat().st_mtime and vo.stat().st_mtime >= newest_dep:
+                return seen[vfile]
+            try:
+                r = subprocess.run(["coqc", "-Q", str(COQ), "NT", str(vfile)], capture_output=True, text=True,
+                                   timeout=1800, cwd=str(COQ))
+                ok, log = r.returncode == 0, _clean(r.stdout + r.stderr)
+            except subprocess.TimeoutExpired:
+                ok, log = False, "TIMEOUT compiling %s" % vfile
+            seen[vfile] = (ok, "" if ok else "%s: %s" % (vfile, log[-1500:]))
+            return seen[vfile]
+        finally:
+            fcntl.flock(fh, fcntl.LOCK_UN)
 
 
 def parse_assumptions(out):
